@@ -5,7 +5,7 @@ MULTILINE|DOTALL, text) on BOTH branches (`__compiled is None` or not), using th
 get_* satisfy the same specification; compile(), get_compiled_pattern(True|False) and purge() preserve Inv and write
 nothing but the cache, so by induction the results do not depend on any interleaving of those calls."""
 from .. import vcrun
-from . import _g5
+from . import _g5, _b4
 
 LEVEL = "proof"
 
@@ -15,6 +15,7 @@ def run(rep, tier):
     for q in _g5.MATCHING:
         vcrun.run_bounded(rep, q, tier, "run-time evaluation of the proved contract on the real code (cross-check of the "
                                        "contract and of the R8 model; not counted as proof)", limit=600 if tier == "quick" else 20000)
-    rep.trusted += _g5.R8
+    _b4.run(rep, tier)   # compile() / get_compiled_pattern() compile the EXPORTED text: __repr__'s contract is assumed in the VCs
+    rep.trusted += _g5.R8 + ["assumed contract of Pregex.__repr__ (exported text compiles to the same regex): bounded stand-in B4 only"]
     rep.assumptions += ["what re finds is uninterpreted: the claim is that pregex passes exactly (pattern, flags, text) to re "
                         "and returns re's answer through the documented accessors"]
